@@ -169,8 +169,16 @@ def run_case(spec0, target, steps, op, pos, pert, stats, add):
             add('C12|non-equivalent-evolution-executed|%s' % shape, replay,
                 {'statements': [q for q, _p in effects][:5],
                  'stdout': res.stdout[-300:]})
+        elif not effects and post == pre:
+            stats['noop_accepted'] = stats.get('noop_accepted', 0) + 1
         else:
+            # the evolution names a missing model/field, adds an existing
+            # field, deletes a primary key or drops a needed initial value
+            # (the reference model refuses it) - and was executed
             stats['accepted_undetermined'] += 1
+            add('C12|reference-invalid-evolution-executed|%s|in:%s' % (
+                shape, ' ; '.join(mj[0] for _l, mj in pert)), replay, {'statements': [q for q, _p in effects][:5],
+                         'stdout': res.stdout[-300:]})
         return
     stats['rejected'] += 1
     if res.exc_type != 'CommandError':
